@@ -114,6 +114,18 @@ func runC04(c *Ctx) {
 			}
 			lc = append(lc, cl)
 		}
+		// amounts spelled with leading zeros are decimal numbers all the same
+		cl := func(x, n int) int {
+			if x > n {
+				return n
+			}
+			return x
+		}
+		lc = append(lc,
+			amountClause{"top 010", func(n int) (int, int) { return 0, cl(10, n) }}, amountClause{"take 08", func(n int) (int, int) { return 0, cl(8, n) }},
+			amountClause{"skip 010", func(n int) (int, int) { return cl(10, n), n }}, amountClause{"last 017", func(n int) (int, int) { return n - cl(17, n), n }},
+			amountClause{"skip 010 take 010", func(n int) (int, int) { return cl(10, n), cl(20, n) }}, amountClause{"skip 00 take 007", func(n int) (int, int) { return 0, cl(7, n) }},
+			amountClause{"last 0100", func(n int) (int, int) { return n - cl(100, n), n }})
 		for _, bt := range [][2]string{{"'a'", "a"}, {"'a' maybe 'b'", "ab"}, {"any", "ab"}, {"('a' = x) or 'b'", "ab"}} {
 			bt := bt
 			var txts []string
